@@ -1024,6 +1024,7 @@ class ConnectionBase(object):
         #self.pending_messages = {}  # seqnum -> (typ, msg)
         self.pending_fragments = {} # frag_seq -> FragmentSender
         self.received_fragments = {} # frag_seq -> FragmentReceiver
+        self.completed_fragments = [] # frag_seq of recently completed messages
 
         self.pending_retry = {}      # msgseq -> msg
         self.pending_retry_msg = {}      # seqnum -> list-of-msgseq
@@ -1487,6 +1488,12 @@ class ConnectionBase(object):
 
         frag_id, index, count, msg = FragmentSender.parsePayload(fragment)
 
+        # a fragment of a message that was already delivered. the sender
+        # did not receive the ack for this fragment and sent it again
+        # (using a new message sequence number)
+        if frag_id in self.completed_fragments:
+            return
+
         # for the first fragment received from a message,
         # create a context object to store all fragments
         if frag_id not in self.received_fragments:
@@ -1500,6 +1507,9 @@ class ConnectionBase(object):
             receiver = self.received_fragments[frag_id]
             self._recvApp(receiver.msgseq, receiver.payload())
             del self.received_fragments[frag_id]
+            self.completed_fragments.append(frag_id)
+            if len(self.completed_fragments) > 256:
+                self.completed_fragments.pop(0)
 
         # remove expired fragments
         # these are likely a result of duplicate packets being received after
